@@ -141,11 +141,12 @@ func newSample(vals []float64, alpha float64) *benchmath.Sample {
 // or differences overflow/underflow float64. Off by default: see notes/C13.md (findings X1, X2).
 var extreme = os.Getenv("VERIF_C13_EXTREME") == "1"
 
-// moderate reports whether every non-zero magnitude lies in [2^-250, 2^250] (variances and their
-// squares, as formed by moremath's MeanCI / Welch t-test, then stay inside the float64 range).
+// moderate reports whether every non-zero magnitude lies in [2^-200, 2^200]: variances and their
+// squares, as formed by moremath's MeanCI / Welch t-test, then stay inside the float64 range, also
+// after the ×2^k rescaling (|k| ≤ 20) of the metamorphic check.
 func moderate(xs []float64) bool {
 	for _, x := range xs {
-		if x != 0 && (math.Abs(x) > 0x1p250 || math.Abs(x) < 0x1p-250) {
+		if x != 0 && (math.Abs(x) > 0x1p200 || math.Abs(x) < 0x1p-200) {
 			return false
 		}
 	}
@@ -384,9 +385,9 @@ func sample(r *hx.Rand, n int) ([]float64, string) {
 	xs := make([]float64, n)
 	kind := r.Intn(12)
 	switch kind {
-	case 11: // large and small magnitudes every assumption can take (exponents within ±240)
+	case 11: // large and small magnitudes every assumption can take (exponents within ±199)
 		for i := range xs {
-			xs[i] = math.Ldexp(1+r.Float(), r.Intn(481)-240)
+			xs[i] = math.Ldexp(1+r.Float(), r.Intn(399)-199)
 			if r.Chance(1, 4) {
 				xs[i] = -xs[i]
 			}
@@ -614,7 +615,24 @@ func main() {
 		id++
 	}
 
-	renderCases(r, hx.N(1500, 40000))
+	// corpus: the design-time witnesses (DESIGN.md §5 F7, F13) and small fixed samples
+	cmpCase(r, "nothing", []float64{1, 2}, []float64{2}, 0.05, false, "nothing+corpus")
+	cmpCase(r, "nothing", []float64{4, 4, 5, 2}, []float64{1, 0}, 0.05, false, "nothing+corpus")
+	cmpCase(r, "nothing", []float64{1, 2, 3}, []float64{4, 5, 6}, 0.1, false, "nothing+corpus+alphaeqp")
+	cmpCase(r, "normal", []float64{1, 2, 3, 4, 5}, []float64{101, 102, 103, 104, 105}, 0.05, false, "normal+corpus")
+	cmpCase(r, "exact", []float64{1, 1}, []float64{2, 2}, 0.05, false, "exact+corpus")
+	for _, a := range anames {
+		sumCase(a, []float64{3, 1, 2, 2, 3}, 0.95, a+"+corpus")
+		for n := 1; n <= 8; n++ {
+			xs := make([]float64, n)
+			for i := range xs {
+				xs[i] = float64(100 + (i*7)%5)
+			}
+			sumCase(a, xs, 0.95, a+"+corpus")
+		}
+	}
+
+	renderCases(r, hx.N(4000, 40000))
 
 	// exhaustive small tied pairs for the exact permutation p-value (values 0..2, sizes ≤ 3+3)
 	small := [][]float64{}
@@ -645,7 +663,7 @@ func main() {
 		}
 	}
 
-	ns := hx.N(500, 12000)
+	ns := hx.N(2000, 15000)
 	for i := 0; i < ns; i++ {
 		vals, shape := sample(r, pickN(r))
 		conf := pickConf(r)
@@ -653,7 +671,7 @@ func main() {
 			sumCase(a, vals, conf, a+"+"+shape)
 		}
 	}
-	nc := hx.N(500, 12000)
+	nc := hx.N(2000, 15000)
 	for i := 0; i < nc; i++ {
 		n1, n2 := pickN(r), pickN(r)
 		if r.Chance(1, 2) { // small pairs: exact permutation p-value applies
